@@ -162,6 +162,22 @@ class Builder:
             np = _np()
             flat = [float(x) for x in s[3]]
             return np.array(flat, dtype="float64").astype(s[2]).reshape(s[1])
+        if t == "ndf":                  # the same logical array in Fortran (column-major) memory order
+            np = _np()
+            return np.asfortranarray(np.array([float(x) for x in s[3]], dtype="float64").astype(s[2]).reshape(s[1]))
+        if t == "ndview":               # … as a non-contiguous view (every second element of a longer buffer)
+            np = _np()
+            flat = np.array([float(x) for x in s[3]], dtype="float64").astype(s[2])
+            buf = np.zeros(2 * len(flat), dtype=s[2])
+            buf[::2] = flat
+            return buf[::2].reshape(s[1])
+        if t == "ma":                   # ["ma", shape, dtype, flat, mask]
+            np = _np()
+            data = np.array([float(x) for x in s[3]], dtype="float64").astype(s[2]).reshape(s[1])
+            return np.ma.array(data, mask=np.array([bool(x) for x in s[4]]).reshape(s[1]))
+        if t == "nds":                  # ["nds", [[field, dtype], …], [[v, …] per row]]: a structured array
+            np = _np()
+            return np.array([tuple(r) for r in s[2]], dtype=[(f, d) for f, d in s[1]])
         if t == "objarr":
             np = _np()
             a = np.empty(len(s[1]), dtype=object)
@@ -374,6 +390,11 @@ def py_same(a, b) -> bool:  # noqa: C901, PLR0911, PLR0912
     if isinstance(a, np.ndarray):
         if a.shape != b.shape or a.dtype != b.dtype:
             return False
+        if isinstance(a, np.ma.MaskedArray):
+            ma, mb = np.ma.getmaskarray(a), np.ma.getmaskarray(b)
+            return bool((ma == mb).all()) and bool((np.asarray(a.data)[~ma] == np.asarray(b.data)[~mb]).all())
+        if a.dtype.names is not None:
+            return bool((a == b).all())
         if a.dtype == object:
             return all(py_same(x, y) for x, y in zip(a.flatten(), b.flatten()))
         return bool(np.array_equal(a, b, equal_nan=True)) if NAN_EQUAL and a.dtype.kind == "f" else bool((a == b).all())
